@@ -27,3 +27,14 @@ CLAIMED['C11'] = dict(
           'grammar transcribed from section-format.rst. Acceptance conditions that are not regex guards on keys/values '
           '(none today) would not be modelled. Whether 1_0 is an integer is left open.'),
     technique='regex->DFA language equivalence with shortest witnesses + exception-escape (sink table) analysis')
+
+CLAIMED['C04'] = dict(
+    category='other',
+    text=('Whole property as a finite-state question: exhaustive breadth-first abstract execution of the reader generator and '
+          'of the writer methods over all container histories (ids/calls concrete, encodings opaque labels, rest abstract) '
+          'until the abstract state space closes; at every content section the encoding actually used is compared with the '
+          'nearest-declaring-ancestor oracle computed from the history alone; diff sections never inherit.'),
+    note=('Exhaustive over the abstract state space (evidence: states, transitions, exhaustive=true). Trusted: list/dict '
+          'models of sa/models.py, the folded transition table (checked against the spec by C10). The codecs themselves are '
+          'outside this property.'),
+    technique='finite-domain abstract interpretation with exhaustive history exploration (typestate of the scope stack)')
